@@ -260,20 +260,7 @@ def install_cast(I):
 
     PP.FrameP.cast = cast
 
-    def expr_cast(self, dtype, strict=True, **kw):
-        if strict:
-            raise core.Unsupported("strict Expr.cast not needed by the functions under contract")
-        castable = cur().ghost.get("castable")
-        if castable is None:
-            castable = cur().ghost["castable"] = z3.Function(cur().fresh_name("castable"), z3.RealSort(), z3.BoolSort())
-
-        def ev(fr):
-            c = self.ev(fr)
-            return PP.Col(c.at, lambda i: z3.Or(c.null(i), z3.Not(castable(PL._term(c.at(i))))), c.kind)
-
-        return PP.Expr(ev, self.name)
-
-    PP.Expr.cast = expr_cast
+    # (Expr.cast(strict=False) is part of the polars theory: same `castable` predicate, cur().ghost['castable'])
     import polars as pl
 
     def all_horizontal(I, *names):
